@@ -225,6 +225,48 @@ def judgePaths (g : MGraph) (a b lo : Nat) (hi : Option Nat) (out : List (List N
     clause (∀ p ∈ simplePaths g a b lo hi, p ∈ out) fun _ => s!"a simple path is missing; expected {showNatLists (simplePaths g a b lo hi)}",
     clause (simpleB g = true → out.Nodup) fun _ => "a path is yielded twice on a simple graph"]
 
+/-! ### (5') all_simple_paths with `from = to` (wave 4)
+
+For `from = to = a` the iterator yields closed sequences `a, mid…, a`.  `IsCycleIn` is the decidable
+reading (over `cycleMid p` = `p` without its first and last element) of `Paths.IsSimpleCycleIn`, the
+statement of `C20_paths_from_eq_to` (`Proofs/C20W3PathsCycle.lean`); `Proofs/C20W4Cycles.lean` proves the
+two equivalent and the judge sound. -/
+
+/-- `p` without its first and last element -/
+def cycleMid (p : List Nat) : List Nat := p.tail.dropLast
+
+/-- a simple cycle through `a`, written `a, mid…, a` with `a :: mid` duplicate-free, `lo ≤ |mid| ≤ hi`;
+without an upper bound `|mid| + 2 ≤ max n 2` (the depth limit `node_count() − 1` of the code) -/
+def IsCycleIn (g : MGraph) (a lo : Nat) (hi : Option Nat) (p : List Nat) : Prop :=
+  p = a :: (cycleMid p ++ [a]) ∧ (a :: cycleMid p).Nodup ∧ IsWalk g p ∧ lo ≤ (cycleMid p).length ∧
+    (∀ h, hi = some h → (cycleMid p).length ≤ h) ∧ (hi = none → (cycleMid p).length + 2 ≤ max g.nodes.length 2)
+
+instance (g : MGraph) (a lo : Nat) (hi : Option Nat) (p : List Nat) : Decidable (IsCycleIn g a lo hi p) :=
+  match hi with
+  | none =>
+    decidable_of_iff (p = a :: (cycleMid p ++ [a]) ∧ (a :: cycleMid p).Nodup ∧ IsWalk g p ∧
+        lo ≤ (cycleMid p).length ∧ (cycleMid p).length + 2 ≤ max g.nodes.length 2)
+      ⟨fun ⟨h1, h2, h3, h4, h6⟩ => ⟨h1, h2, h3, h4, fun _ h => (nomatch h), fun _ => h6⟩,
+       fun ⟨h1, h2, h3, h4, _, h6⟩ => ⟨h1, h2, h3, h4, h6 rfl⟩⟩
+  | some b =>
+    decidable_of_iff (p = a :: (cycleMid p ++ [a]) ∧ (a :: cycleMid p).Nodup ∧ IsWalk g p ∧
+        lo ≤ (cycleMid p).length ∧ (cycleMid p).length ≤ b)
+      ⟨fun ⟨h1, h2, h3, h4, h5⟩ => ⟨h1, h2, h3, h4, fun _ h => (by cases h; exact h5), fun h => (nomatch h)⟩,
+       fun ⟨h1, h2, h3, h4, h5, _⟩ => ⟨h1, h2, h3, h4, h5 b rfl⟩⟩
+
+/-- definitional oracle: every duplicate-free sequence `a, mid…, a` over the other nodes, filtered by the definition -/
+def simpleCycles (g : MGraph) (a lo : Nat) (hi : Option Nat) : List (List Nat) :=
+  ((seqs g.nodes.length (g.nodes.erase a)).map fun mid => a :: (mid ++ [a])).filter
+    fun p => decide (IsCycleIn g a lo hi p)
+
+def judgeCycles (g : MGraph) (a lo : Nat) (hi : Option Nat) (out : List (List Nat)) : Option String :=
+  firstFail [
+    clause (g.directed = true ∧ EndpointsOk g ∧ g.nodes.Nodup ∧ a ∈ g.nodes) fun _ => "outside the judged domain",
+    clause (∀ p ∈ out, IsCycleIn g a lo hi p) fun _ =>
+      s!"yielded something that is not a simple cycle through {a} within the bounds; expected {showNatLists (simpleCycles g a lo hi)}",
+    clause (∀ p ∈ simpleCycles g a lo hi, p ∈ out) fun _ => s!"a simple cycle is missing; expected {showNatLists (simpleCycles g a lo hi)}",
+    clause (simpleB g = true → out.Nodup) fun _ => "a cycle is yielded twice on a simple graph"]
+
 /-! ### (6) steiner_tree -/
 
 def weightOf (es : List Edge) : Int := (es.map (·.w)).sum
